@@ -130,12 +130,14 @@ TEXT = {
         "technique": "Lean 4 proof (case analysis of handle_piece; manager invariant re-used) + trace monitor on model and implementation + differential correspondence",
     },
     "C11": {
-        "level": "Kernel-checked: the init bitfield has bit i set iff piece i is owned when Init is handled, spare bits zero, for every status vector (T1, via the C07 "
-                 "bit-position theorem); SendHave is held back while the peer chokes us and appended in broadcast order, else written at once (T3a); Unchoke writes all "
-                 "held-back announcements first, in order, leaving none (T3b); the manager broadcasts SendHave i only in the step that marks i owned (T2). PARTIAL: the "
-                 "trace monitor P11 (C11_trace_full) is evaluated on model and implementation traces on every run; its proof for all scripts is not finished.",
+        "level": "Kernel-checked for EVERY script of frames, broadcasts, manager replies, timer ticks and stream ends (C11_trace, by the trace-monitor "
+                 "soundness lemma and a case analysis of every handler): a Have is written only in reaction to the manager's SendHave - at once when the "
+                 "peer does not choke us, otherwise held back and written first, in broadcast order, at the next Unchoke, leaving none - and the only "
+                 "bitfield ever written is the one the manager computed at Init; the init bitfield has bit i set iff piece i is owned when Init is handled, "
+                 "spare bits zero, for every status vector (T1, via the C07 bit-position theorem); the manager broadcasts SendHave i only in the step that "
+                 "marks i owned (T2). The same monitor P11 is evaluated on the implementation's trace of every generated script.",
         "note": KERNEL + "assumption made explicit: the broadcast channel never overflows (Lagged receivers lose announcements).",
-        "technique": "Lean 4 proof (local theorems about SendHave / Unchoke / Init) + trace monitor on model and implementation + differential correspondence",
+        "technique": "Lean 4 proof (trace monitor proved sound for all scripts by induction over the script; local theorems about SendHave / Unchoke / Init) + the same monitor on implementation traces + differential correspondence",
     },
     "C10": {
         "level": "Kernel-checked for every piece length and every positive block size: PieceRx::left yields blocks (kB, min(B, len-kB)) for k < ceil(len/B), each "
